@@ -116,10 +116,12 @@ pub struct ErrRules {
     pub contexts: bool,
     /// judge `found` against the input
     pub found: bool,
+    /// recovered syntax errors are only required to be present (any non-validate error matches)
+    pub lenient_rec: bool,
 }
 
 impl ErrRules {
-    pub const LENIENT: ErrRules = ErrRules { exact_span: false, expected: true, contexts: true, found: true };
+    pub const LENIENT: ErrRules = ErrRules { exact_span: false, expected: true, contexts: true, found: true, lenient_rec: false };
 }
 
 fn ctx_ok<'s, I: Kind<'s>>(buf: &Buf, must: &[(String, Sp)], may: &[(String, Sp)], real: &[(String, Sp)]) -> Option<String>
@@ -277,6 +279,13 @@ where
                     }
                     None
                 }
+                EmitK::Rec(_) if rules.lenient_rec => {
+                    if is_validate_tag(re) {
+                        Some(format!("emission #{}: expected a recovered syntax error, got {}", i, re.show()))
+                    } else {
+                        None
+                    }
+                }
                 EmitK::Rec(me) => err_diff::<I>(buf, me, re, rules).map(|d| format!("recovered error #{}: {}", i, d)),
             }
         };
@@ -300,4 +309,11 @@ where
         return Some(format!("reported error #{} ({}) was not emitted on the surviving path", j, r[j].show()));
     }
     None
+}
+
+fn is_validate_tag(re: &RErr) -> bool {
+    match &re.custom {
+        Some(c) => c.starts_with('E') && c.contains('.'),
+        None => false,
+    }
 }
